@@ -423,12 +423,26 @@ func checkExistenceProbes(c *Ctx) {
 			if f.Name() != "lstat" {
 				return
 			}
-			tgt, _ := st.Val.(*ssa.Function)
+			tgt := funcValue(st.Val)
 			if tgt == nil {
 				return // bound from a parameter or another table: followed at its own store
 			}
 			n++
 			name := tgt.String()
+			// a wrapper around os.Lstat counts as os.Lstat
+			if isSubject(tgt) && tgt.Blocks != nil {
+				callsLstat, callsStat := false, false
+				eachInstr(tgt, func(_ *ssa.BasicBlock, _ int, ti ssa.Instruction) {
+					if _, ref := callRef(ti); ref == "os.Lstat" {
+						callsLstat = true
+					} else if ref == "os.Stat" {
+						callsStat = true
+					}
+				})
+				if callsLstat && !callsStat {
+					name = "os.Lstat"
+				}
+			}
 			construct := fmt.Sprintf("binding %s.%s", typeNameOf(fa.X.Type()), f.Name())
 			if name == "os.Lstat" {
 				r.OK("C06.R6", fid, construct, p.Pos(st.Pos()), "the existence probe of the transaction is os.Lstat (does not follow links)", true)
